@@ -117,7 +117,13 @@ pub fn read_facts_and_rules(file_name: &str) -> Result<Vec<String>, String> {
                     if line.len() > 0 {
                         match check_last_char(&line, line_number) {
                             Some(msg) => { return Err(msg); },
-                            None => { long_line += &line; },
+                            None => {
+                                long_line += &line;
+                                // A rule which continues on the next line: keep
+                                // the two pieces apart. ("$X =" + "5" must not
+                                // become "$X =5", which is not an infix.)
+                                if !line.ends_with('.') { long_line += " "; }
+                            },
                         }
                         rules.push(line);
                     }
